@@ -1,6 +1,6 @@
 (* C15: what the backtracking matcher computes on the shapes the annotation expressions are made of. *)
 From Coq Require Import List Ascii String NArith Arith Bool Lia.
-From GG Require Import Base.Strs Model.RegexSyntax Model.Regex.
+From GG Require Import Base.Strs Model.RegexSyntax Model.Regex Model.Annot.
 Import ListNotations.
 
 (* ---------- single-character expressions ---------- *)
@@ -298,4 +298,420 @@ Proof.
     rewrite (dropw_app_all is_ws w2) by (try exact H2; exact Ha).
     replace (strip_prefix (a :: kw) ((a :: kw) ++ rest)) with (Some rest) by (symmetry; apply strip_prefix_spec; reflexivity).
     exact Ht.
+Qed.
+
+(* ---------- disjoint character classes (finite check over the 256 bytes) ---------- *)
+Definition disjoint_b (c1 c2 : list (N * N)) : bool :=
+  forallb (fun n => negb (in_cls c1 (ascii_of_nat n) && in_cls c2 (ascii_of_nat n))) (seq 0 256).
+
+Lemma disjoint_sound c1 c2 : disjoint_b c1 c2 = true -> forall y, in_cls c1 y = true -> in_cls c2 y = false.
+Proof.
+  unfold disjoint_b. rewrite forallb_forall. intros H y Hy.
+  specialize (H (nat_of_ascii y)). rewrite ascii_nat_embedding in H.
+  assert (Hin : In (nat_of_ascii y) (seq 0 256)) by (apply in_seq; pose proof (nat_ascii_bounded y); lia).
+  specialize (H Hin). rewrite Hy in H. simpl in H. apply negb_true_iff in H. exact H.
+Qed.
+
+(* ---------- a maximal run of a class followed by something that cannot start with that class ---------- *)
+Theorem m_plus_det cl k : rejects (in_cls cl) k -> forall s i c,
+  m (RPlus (RCls cl)) s i c k =
+  match s with
+  | x :: xs => if in_cls cl x then k (dropw (in_cls cl) s) (i + List.length (takew (in_cls cl) s)) c else None
+  | [] => None
+  end.
+Proof.
+  intros Hr s i c. rewrite (m_plus_single (RCls cl) (in_cls cl) (SgCls cl)). destruct s as [|x xs]; [reflexivity|].
+  cbn [dropw takew]. destruct (in_cls cl x); [|reflexivity]. rewrite star_p_det by exact Hr. cbn [List.length]. f_equal. lia.
+Qed.
+
+(* ---------- @implements ---------- *)
+Definition WORD : list (N * N) := [(48, 57); (65, 90); (95, 95); (97, 122)]%N.
+Definition is_word : ascii -> bool := in_cls WORD.
+Definition AMP : list (N * N) := [(38, 38)]%N.
+Definition DOT : list (N * N) := [(46, 46)]%N.
+
+Definition impl_args_re : re :=
+  RCat (RPlus (RCls WS))
+    (RCat (ROpt (RGrp 1 (RCls AMP)))
+       (RCat (ROpt (RCat (RGrp 2 (RPlus (RCls WORD))) (RCls DOT)))
+          (RCat (RGrp 3 (RPlus (RCls WORD))) (RCat (tail_re WS) REot)))).
+
+Definition implements_re (kw : list ascii) : re :=
+  RCat RBot (RCat (RStar (RCls WS)) (RCat (lit slashes) (RCat (RStar (RCls WS)) (RCat (lit kw) impl_args_re)))).
+
+(* the arguments of @implements, by maximal munch: blanks, an optional &, an identifier, optionally a dot and a second
+   identifier, then the free-text tail.  Returns (pointer?, qualifier, interface) *)
+Definition spec_impl_args (s : list ascii) : option (bool * list ascii * list ascii) :=
+  match s with
+  | x :: _ =>
+      if is_ws x then
+        let s5 := dropw is_ws s in
+        let '(amp, s6) := match s5 with y :: r => if in_cls AMP y then (true, r) else (false, s5) | [] => (false, s5) end in
+        let w1 := takew is_word s6 in
+        let r1 := dropw is_word s6 in
+        match w1 with
+        | [] => None
+        | _ =>
+            match r1 with
+            | d :: r1' =>
+                if in_cls DOT d then
+                  let w2 := takew is_word r1' in
+                  match w2 with
+                  | [] => None
+                  | _ => if tail_ok WS (dropw is_word r1') then Some (amp, w1, w2) else None
+                  end
+                else if tail_ok WS (d :: r1') then Some (amp, [], w1) else None
+            | [] => Some (amp, [], w1)
+            end
+        end
+      else None
+  | [] => None
+  end.
+
+(* the captures the matcher returns for it, as positions *)
+Definition impl_caps (i : nat) (s : list ascii) (c : caps) : option caps :=
+  match s with
+  | x :: _ =>
+      if is_ws x then
+        let nws := List.length (takew is_ws s) in
+        let s5 := dropw is_ws s in
+        let i5 := i + nws in
+        let '(c6, i6, s6) := match s5 with
+                             | y :: r => if in_cls AMP y then ((1, (i5, S i5)) :: c, S i5, r) else (c, i5, s5)
+                             | [] => (c, i5, s5)
+                             end in
+        let n1 := List.length (takew is_word s6) in
+        let r1 := dropw is_word s6 in
+        match takew is_word s6 with
+        | [] => None
+        | _ =>
+            match r1 with
+            | d :: r1' =>
+                if in_cls DOT d then
+                  let n2 := List.length (takew is_word r1') in
+                  match takew is_word r1' with
+                  | [] => None
+                  | _ => if tail_ok WS (dropw is_word r1')
+                         then Some ((3, (S (i6 + n1), S (i6 + n1) + n2)) :: (2, (i6, i6 + n1)) :: c6) else None
+                  end
+                else if tail_ok WS (d :: r1') then Some ((3, (i6, i6 + n1)) :: c6) else None
+            | [] => Some ((3, (i6, i6 + n1)) :: c6)
+            end
+        end
+      else None
+  | [] => None
+  end.
+
+Lemma ws_not_amp : forall y, is_ws y = true -> in_cls AMP y = false.
+Proof. apply disjoint_sound. vm_compute. reflexivity. Qed.
+Lemma ws_not_word : forall y, is_ws y = true -> is_word y = false.
+Proof. apply disjoint_sound. vm_compute. reflexivity. Qed.
+Lemma word_not_ws : forall y, is_word y = true -> is_ws y = false.
+Proof. apply disjoint_sound. vm_compute. reflexivity. Qed.
+Lemma word_not_dot : forall y, is_word y = true -> in_cls DOT y = false.
+Proof. apply disjoint_sound. vm_compute. reflexivity. Qed.
+Lemma amp_not_word : forall y, in_cls AMP y = true -> is_word y = false.
+Proof. apply disjoint_sound. vm_compute. reflexivity. Qed.
+Lemma dot_not_ws : forall y, in_cls DOT y = true -> is_ws y = false.
+Proof. apply disjoint_sound. vm_compute. reflexivity. Qed.
+
+Lemma tail_rejects_word n a : rejects is_word (fun s' i' c' => m (RCat (tail_re WS) REot) s' i' ((n, (a, i')) :: c') final).
+Proof. intros x xs i c Hx. rewrite m_tail. cbn [tail_ok]. change (in_cls WS x) with (is_ws x). rewrite (word_not_ws x Hx). reflexivity. Qed.
+
+(* the interface name: a maximal identifier followed by the tail *)
+Lemma m_name s i c :
+  m (RCat (RGrp 3 (RPlus (RCls WORD))) (RCat (tail_re WS) REot)) s i c final =
+  match s with
+  | x :: _ => if is_word x then
+                if tail_ok WS (dropw is_word s) then Some ((3, (i, i + List.length (takew is_word s))) :: c) else None
+              else None
+  | [] => None
+  end.
+Proof.
+  rewrite m_cat, m_grp. rewrite (m_plus_det WORD) by (apply tail_rejects_word).
+  destruct s as [|x xs]; [reflexivity|]. change (in_cls WORD x) with (is_word x). destruct (is_word x); [|reflexivity].
+  rewrite m_tail. reflexivity.
+Qed.
+
+Lemma opt_id {A} (o : option A) : match o with Some r => Some r | None => None end = o.
+Proof. destruct o; reflexivity. Qed.
+
+Lemma takew_nonempty p x xs : p x = true -> takew p (x :: xs) <> [].
+Proof. intros H. simpl. rewrite H. discriminate. Qed.
+
+Theorem m_impl_args s i c : m impl_args_re s i c final = impl_caps i s c.
+Proof.
+  unfold impl_args_re, impl_caps. rewrite m_cat.
+  (* the leading blanks: what follows cannot start with a blank *)
+  assert (Hrej : rejects is_ws (fun s' i' c' =>
+            m (RCat (ROpt (RGrp 1 (RCls AMP))) (RCat (ROpt (RCat (RGrp 2 (RPlus (RCls WORD))) (RCls DOT)))
+                 (RCat (RGrp 3 (RPlus (RCls WORD))) (RCat (tail_re WS) REot)))) s' i' c' final)).
+  { intros y ys j d Hy. rewrite m_cat, m_opt, m_grp, (m_single (RCls AMP) (in_cls AMP) (SgCls AMP)). rewrite (ws_not_amp y Hy).
+    rewrite m_cat, m_opt, m_cat, m_grp, (m_plus_single (RCls WORD) is_word (SgCls WORD)). rewrite (ws_not_word y Hy).
+    rewrite m_name. rewrite (ws_not_word y Hy). reflexivity. }
+  rewrite (m_plus_det WS) by exact Hrej.
+  destruct s as [|x xs]; [reflexivity|]. change (in_cls WS x) with (is_ws x). destruct (is_ws x) eqn:Ex; [|reflexivity].
+  set (s5 := dropw (in_cls WS) (x :: xs)). set (i5 := i + List.length (takew (in_cls WS) (x :: xs))).
+  change (dropw is_ws (x :: xs)) with s5. change (i + List.length (takew is_ws (x :: xs))) with i5.
+  (* after the optional & *)
+  assert (Hafter : forall s6 i6 c6,
+    m (RCat (ROpt (RCat (RGrp 2 (RPlus (RCls WORD))) (RCls DOT))) (RCat (RGrp 3 (RPlus (RCls WORD))) (RCat (tail_re WS) REot))) s6 i6 c6 final =
+    match takew is_word s6 with
+    | [] => None
+    | _ => match dropw is_word s6 with
+           | d :: r1' =>
+               if in_cls DOT d then
+                 match takew is_word r1' with
+                 | [] => None
+                 | _ => if tail_ok WS (dropw is_word r1')
+                        then Some ((3, (S (i6 + List.length (takew is_word s6)), S (i6 + List.length (takew is_word s6)) + List.length (takew is_word r1')))
+                                   :: (2, (i6, i6 + List.length (takew is_word s6))) :: c6) else None
+                 end
+               else if tail_ok WS (d :: r1') then Some ((3, (i6, i6 + List.length (takew is_word s6))) :: c6) else None
+           | [] => Some ((3, (i6, i6 + List.length (takew is_word s6))) :: c6)
+           end
+    end).
+  { intros s6 i6 c6. rewrite m_cat, m_opt, m_cat, m_grp.
+    assert (Hrd : rejects (in_cls WORD) (fun s' i' c' => m (RCls DOT) s' i' ((2, (i6, i')) :: c')
+                     (fun s'0 i'0 c'0 => m (RCat (RGrp 3 (RPlus (RCls WORD))) (RCat (tail_re WS) REot)) s'0 i'0 c'0 final))).
+    { intros y ys j d Hy. rewrite (m_single (RCls DOT) (in_cls DOT) (SgCls DOT)). rewrite (word_not_dot y Hy). reflexivity. }
+    rewrite (m_plus_det WORD) by exact Hrd. rewrite m_name.
+    destruct s6 as [|y ys]; [reflexivity|]. change (in_cls WORD y) with (is_word y).
+    destruct (is_word y) eqn:Ey; [|cbn [takew]; rewrite Ey; reflexivity].
+    pose proof (takew_nonempty is_word y ys Ey) as Hne.
+    change (dropw (in_cls WORD) (y :: ys)) with (dropw is_word (y :: ys)). change (takew (in_cls WORD) (y :: ys)) with (takew is_word (y :: ys)).
+    destruct (takew is_word (y :: ys)) as [|t0 ts] eqn:Et; [contradiction Hne; reflexivity|].
+    rewrite (m_single (RCls DOT) (in_cls DOT) (SgCls DOT)).
+    pose proof (dropw_head is_word (y :: ys)) as Hh.
+    destruct (dropw is_word (y :: ys)) as [|d r1'] eqn:Ed.
+    - (* nothing after the identifier *) reflexivity.
+    - destruct (in_cls DOT d) eqn:Edot.
+      + (* a dot follows: the undotted reading cannot succeed, the dot is not a blank *)
+        assert (Hfb : tail_ok WS (d :: r1') = false)
+          by (cbn [tail_ok]; change (in_cls WS d) with (is_ws d); rewrite (dot_not_ws d Edot); reflexivity).
+        rewrite Hfb. rewrite m_name. destruct r1' as [|z zs]; [reflexivity|].
+        destruct (is_word z) eqn:Ez; [|cbn [takew]; rewrite Ez; reflexivity].
+        pose proof (takew_nonempty is_word z zs Ez) as Hne2. destruct (takew is_word (z :: zs)) as [|u0 us] eqn:Eu; [contradiction Hne2; reflexivity|].
+        destruct (tail_ok WS (dropw is_word (z :: zs))); [|reflexivity].
+        reflexivity.
+      + reflexivity. }
+  destruct s5 as [|y r] eqn:E5.
+  - rewrite m_cat, m_opt, m_grp, (m_single (RCls AMP) (in_cls AMP) (SgCls AMP)). apply Hafter.
+  - rewrite m_cat, m_opt, m_grp, (m_single (RCls AMP) (in_cls AMP) (SgCls AMP)).
+    destruct (in_cls AMP y) eqn:Ea.
+    + rewrite Hafter. rewrite (Hafter (y :: r) i5 c).
+      cbn [takew]. rewrite (amp_not_word y Ea). rewrite opt_id. reflexivity.
+    + apply Hafter.
+Qed.
+
+(* ---------- from capture positions to the captured texts ---------- *)
+Lemma substring_seg text : forall a n,
+  String.substring a n text = string_of_list_ascii (firstn n (skipn a (list_ascii_of_string text))).
+Proof.
+  induction text as [|ch t IH]; intros a n.
+  - destruct a, n; reflexivity.
+  - destruct a as [|a]; simpl.
+    + destruct n as [|n]; [reflexivity|]. simpl. f_equal. rewrite (IH 0 n). reflexivity.
+    + apply IH.
+Qed.
+
+Lemma skipn_add {A} (l : list A) a b : skipn (a + b) l = skipn b (skipn a l).
+Proof. revert l. induction a as [|a IH]; intros l; [reflexivity|]. destruct l; simpl; [destruct b; reflexivity|apply IH]. Qed.
+
+Lemma skipn_app_exact {A} (w r : list A) : skipn (List.length w) (w ++ r) = r.
+Proof. induction w; simpl; auto. Qed.
+Lemma firstn_app_exact {A} (w r : list A) : firstn (List.length w) (w ++ r) = w.
+Proof. induction w; simpl; [reflexivity|f_equal; assumption]. Qed.
+
+(* the text between two positions, when the input from the first one on starts with w *)
+Lemma seg_of l i (w r : list ascii) : skipn i l = (w ++ r)%list -> firstn (i + List.length w - i) (skipn i l) = w.
+Proof. intros H. rewrite H. replace (i + List.length w - i) with (List.length w) by lia. apply firstn_app_exact. Qed.
+
+Lemma skipn_after_run p s d r : dropw p s = d :: r -> skipn (List.length (takew p s) + 1) s = r.
+Proof.
+  induction s as [|a s IH]; simpl; [discriminate|]. destruct (p a); simpl.
+  - exact IH.
+  - intros H. inversion H. reflexivity.
+Qed.
+
+Definition show (x : bool * list ascii * list ascii) : bool * string * string :=
+  let '(amp, q, n) := x in (amp, string_of_list_ascii q, string_of_list_ascii n).
+
+Definition read_caps (text : string) (c : caps) : bool * string * string :=
+  (String.eqb (group c 1 text) "&", group c 2 text, group c 3 text).
+
+Lemma group_seg text c n a b : cap_get n c = Some (a, b) ->
+  group c n text = string_of_list_ascii (firstn (b - a) (skipn a (list_ascii_of_string text))).
+Proof. intros H. unfold group. rewrite H. apply substring_seg. Qed.
+Lemma group_none text c n : cap_get n c = None -> group c n text = EmptyString.
+Proof. intros H. unfold group. rewrite H. reflexivity. Qed.
+
+Lemma takew_drop_app p s : s = (takew p s ++ dropw p s)%list.
+Proof. symmetry. apply take_drop. Qed.
+
+Theorem impl_caps_read text i s :
+  skipn i (list_ascii_of_string text) = s ->
+  match impl_caps i s [] with
+  | Some c => option_map show (spec_impl_args s) = Some (read_caps text c)
+  | None => spec_impl_args s = None
+  end.
+Proof.
+  intros Hs. set (l := list_ascii_of_string text) in *. unfold impl_caps, spec_impl_args.
+  destruct s as [|x xs] eqn:Es0; [reflexivity|]. rewrite <- Es0 in *. destruct (is_ws x); [|reflexivity].
+  set (nws := List.length (takew is_ws s)). set (s5 := dropw is_ws s).
+  assert (H5 : skipn (i + nws) l = s5).
+  { rewrite skipn_add, Hs. rewrite (takew_drop_app is_ws s) at 1. apply skipn_app_exact. }
+  (* the optional ampersand *)
+  assert (Hgen : forall c6 i6 s6 amp,
+            skipn i6 l = s6 -> cap_get 2 c6 = None -> cap_get 3 c6 = None ->
+            String.eqb (group c6 1 text) "&" = amp ->
+            (forall c', cap_get 1 ((3, c') :: c6) = cap_get 1 c6) ->
+    match (match takew is_word s6 with
+           | [] => None
+           | _ => match dropw is_word s6 with
+                  | d :: r1' =>
+                      if in_cls DOT d then
+                        match takew is_word r1' with
+                        | [] => None
+                        | _ => if tail_ok WS (dropw is_word r1')
+                               then Some ((3, (S (i6 + List.length (takew is_word s6)), S (i6 + List.length (takew is_word s6)) + List.length (takew is_word r1')))
+                                          :: (2, (i6, i6 + List.length (takew is_word s6))) :: c6) else None
+                        end
+                      else if tail_ok WS (d :: r1') then Some ((3, (i6, i6 + List.length (takew is_word s6))) :: c6) else None
+                  | [] => Some ((3, (i6, i6 + List.length (takew is_word s6))) :: c6)
+                  end
+           end) with
+    | Some c =>
+        option_map show
+          (match takew is_word s6 with
+           | [] => None
+           | _ => match dropw is_word s6 with
+                  | d :: r1' =>
+                      if in_cls DOT d then
+                        match takew is_word r1' with
+                        | [] => None
+                        | _ => if tail_ok WS (dropw is_word r1') then Some (amp, takew is_word s6, takew is_word r1') else None
+                        end
+                      else if tail_ok WS (d :: r1') then Some (amp, [], takew is_word s6) else None
+                  | [] => Some (amp, [], takew is_word s6)
+                  end
+           end) = Some (read_caps text c)
+    | None =>
+        (match takew is_word s6 with
+         | [] => None
+         | _ => match dropw is_word s6 with
+                | d :: r1' =>
+                    if in_cls DOT d then
+                      match takew is_word r1' with
+                      | [] => None
+                      | _ => if tail_ok WS (dropw is_word r1') then Some (amp, takew is_word s6, takew is_word r1') else None
+                      end
+                    else if tail_ok WS (d :: r1') then Some (amp, [], takew is_word s6) else None
+                | [] => Some (amp, [], takew is_word s6)
+                end
+         end) = None
+    end).
+  { intros c6 i6 s6 amp H6 Hc2 Hc3 Hamp Hc1.
+    assert (Hw1 : firstn (i6 + List.length (takew is_word s6) - i6) (skipn i6 l) = takew is_word s6)
+      by (apply (seg_of l i6 _ (dropw is_word s6)); rewrite H6; apply takew_drop_app).
+    destruct (takew is_word s6) as [|t0 ts] eqn:Et; [reflexivity|]. rewrite <- Et in *.
+    destruct (dropw is_word s6) as [|d r1'] eqn:Ed.
+    - cbn [option_map show]. unfold read_caps. f_equal.
+      rewrite (group_seg text _ 3 i6 (i6 + List.length (takew is_word s6))) by (cbn; reflexivity).
+      rewrite (group_none text _ 2) by (cbn; exact Hc2).
+      unfold group at 1. rewrite Hc1. fold (group c6 1 text). fold l. rewrite Hamp, Hw1. reflexivity.
+    - destruct (in_cls DOT d).
+      + assert (H7 : skipn (S (i6 + List.length (takew is_word s6))) l = r1').
+        { replace (S (i6 + List.length (takew is_word s6))) with (i6 + (List.length (takew is_word s6) + 1)) by lia.
+          rewrite skipn_add, H6. apply (skipn_after_run is_word s6 d r1' Ed). }
+        assert (Hw2 : firstn (List.length (takew is_word r1')) (skipn (S (i6 + List.length (takew is_word s6))) l) = takew is_word r1')
+          by (rewrite H7; rewrite (takew_drop_app is_word r1') at 2; apply firstn_app_exact).
+        destruct (takew is_word r1') as [|u0 us] eqn:Eu; [reflexivity|]. rewrite <- Eu in *.
+        destruct (tail_ok WS (dropw is_word r1')); [|reflexivity].
+        cbn [option_map show]. unfold read_caps. f_equal.
+        rewrite (group_seg text _ 3 _ _) by (cbn; reflexivity).
+        rewrite (group_seg text _ 2 i6 (i6 + List.length (takew is_word s6))) by (cbn; reflexivity).
+        fold l.
+        replace (S (i6 + List.length (takew is_word s6) + List.length (takew is_word r1')) - S (i6 + List.length (takew is_word s6)))
+          with (List.length (takew is_word r1')) by lia.
+        rewrite Hw1, Hw2.
+        unfold group at 1. replace (cap_get 1 _) with (cap_get 1 c6) by (cbn; reflexivity). fold (group c6 1 text). rewrite Hamp. reflexivity.
+      + destruct (tail_ok WS (d :: r1')); [|reflexivity].
+        cbn [option_map show]. unfold read_caps. f_equal.
+        rewrite (group_seg text _ 3 i6 (i6 + List.length (takew is_word s6))) by (cbn; reflexivity).
+        rewrite (group_none text _ 2) by (cbn; exact Hc2).
+        unfold group at 1. rewrite Hc1. fold (group c6 1 text). fold l. rewrite Hamp, Hw1. reflexivity. }
+  destruct s5 as [|y r] eqn:E5.
+  - apply (Hgen [] (i + nws) [] false); try reflexivity; exact H5.
+  - destruct (in_cls AMP y) eqn:Ea.
+    + apply (Hgen [(1, (i + nws, S (i + nws)))] (S (i + nws)) r true); try reflexivity.
+      * replace (S (i + nws)) with (i + nws + 1) by lia. rewrite skipn_add, H5. reflexivity.
+      * (* the captured text of group 1 is the ampersand itself *)
+        rewrite (group_seg text _ 1 (i + nws) (S (i + nws))) by (cbn; reflexivity).
+        replace (S (i + nws) - (i + nws)) with 1 by lia. fold l. rewrite H5. cbn [firstn string_of_list_ascii].
+        unfold in_cls in Ea. cbn in Ea. rewrite orb_false_r in Ea. apply andb_true_iff in Ea. destruct Ea as [E1 E2].
+        apply N.leb_le in E1. apply N.leb_le in E2. assert (E : N_of_ascii y = 38%N) by lia.
+        rewrite <- (ascii_N_embedding y), E. reflexivity.
+    + apply (Hgen [] (i + nws) (y :: r) false); try reflexivity; exact H5.
+Qed.
+
+Lemma skipn_takew p s : skipn (List.length (takew p s)) s = dropw p s.
+Proof. rewrite (takew_drop_app p s) at 2. apply skipn_app_exact. Qed.
+Lemma skipn_strip w s s' : strip_prefix w s = Some s' -> skipn (List.length w) s = s'.
+Proof. intros H. apply strip_prefix_spec in H. subst. apply skipn_app_exact. Qed.
+
+(* the common head of every annotation line: blanks, two slashes, blanks, the keyword *)
+Definition strip_head (kw s : list ascii) : option (list ascii) :=
+  match strip_prefix slashes (dropw is_ws s) with
+  | Some s2 => strip_prefix kw (dropw is_ws s2)
+  | None => None
+  end.
+
+Lemma m_head a kw r s k :
+  is_ws a = false ->
+  m (RCat (RStar (RCls WS)) (RCat (lit slashes) (RCat (RStar (RCls WS)) (RCat (lit (a :: kw)) r)))) s 0 [] k =
+  match strip_head (a :: kw) s with
+  | Some s4 => m r s4 (List.length s - List.length s4) [] k
+  | None => None
+  end.
+Proof.
+  intros Ha. unfold strip_head.
+  rewrite m_cat, (m_star_single (RCls WS) is_ws (SgCls WS)).
+  rewrite star_p_det by (apply rejects_lit; vm_compute; reflexivity).
+  rewrite m_cat, m_lit. destruct (strip_prefix slashes (dropw is_ws s)) as [s2|] eqn:E1; [|reflexivity].
+  rewrite m_cat, (m_star_single (RCls WS) is_ws (SgCls WS)).
+  rewrite star_p_det by (apply rejects_lit; exact Ha).
+  rewrite m_cat, m_lit. destruct (strip_prefix (a :: kw) (dropw is_ws s2)) as [s4|] eqn:E2; [|reflexivity].
+  f_equal.
+  apply strip_prefix_spec in E1. apply strip_prefix_spec in E2.
+  pose proof (f_equal (@List.length ascii) (take_drop is_ws s)) as H1. pose proof (f_equal (@List.length ascii) (take_drop is_ws s2)) as H2.
+  rewrite E1 in H1. rewrite E2 in H2. rewrite !app_length in H1, H2. cbn [List.length slashes] in *. lia.
+Qed.
+
+Lemma strip_head_skipn kw s s4 : strip_head kw s = Some s4 -> skipn (List.length s - List.length s4) s = s4.
+Proof.
+  unfold strip_head. destruct (strip_prefix slashes (dropw is_ws s)) as [s2|] eqn:E1; [|discriminate]. intros E2.
+  apply strip_prefix_spec in E1. apply strip_prefix_spec in E2.
+  assert (Hs : s = ((takew is_ws s ++ slashes ++ takew is_ws s2 ++ kw) ++ s4)%list).
+  { rewrite <- (take_drop is_ws s) at 1. rewrite E1. rewrite <- (take_drop is_ws s2) at 1. rewrite E2. rewrite <- !app_assoc. reflexivity. }
+  set (pre := (takew is_ws s ++ slashes ++ takew is_ws s2 ++ kw)%list) in *.
+  replace (List.length s - List.length s4) with (List.length pre) by (rewrite Hs at 1; rewrite app_length; lia).
+  rewrite Hs at 1. apply skipn_app_exact.
+Qed.
+
+Theorem parse_implements_exact a kw text :
+  is_ws a = false ->
+  Annot.parse_implements (implements_re (a :: kw)) text =
+  match strip_head (a :: kw) (list_ascii_of_string text) with
+  | Some s4 => option_map show (spec_impl_args s4)
+  | None => None
+  end.
+Proof.
+  intros Ha. unfold Annot.parse_implements, implements_re. rewrite re_find_anchored, (m_head a kw _ _ _ Ha).
+  destruct (strip_head (a :: kw) (list_ascii_of_string text)) as [s4|] eqn:E; [|reflexivity].
+  rewrite m_impl_args.
+  pose proof (impl_caps_read text _ s4 (strip_head_skipn _ _ _ E)) as H.
+  destruct (impl_caps _ s4 []) as [c|].
+  - rewrite H. reflexivity.
+  - rewrite H. reflexivity.
 Qed.
